@@ -3,7 +3,7 @@
    emptiness of list and mapping components as a parameter) and about the list emptiness procedure (Model/ListEmpty.v:
    bdd_every_result, list_formula_is_empty, list_inhabited); the mapping emptiness procedure is judged by enumeration of
    values on the implementation (see DESIGN.md). *)
-From Beff Require Import Model.Subtype Model.ListSpec Proofs.C05 Proofs.SemOps Proofs.ListSoundTop.
+From Beff Require Import Model.Subtype Model.ListSpec Proofs.C05 Proofs.SemOps Proofs.ListSoundTop Proofs.ListCompleteTop.
 
 (* "two types are reported equivalent exactly when each is assignable to the other" *)
 Theorem C05_same_type_is_mutual_assignability :
@@ -83,6 +83,32 @@ Proof.
   intros p pt H. discriminate H.
 Qed.
 
+(* the converse on the same fragment: a "not assignable" answer comes with a value of the first type that is not a value of the
+   second (types whose `all` bits are tags; element types of the atoms likewise) — so for list-only types the decision is exact *)
+Theorem C05_list_only_types_not_assignable_has_a_separating_value :
+  forall (tbl : ltable),
+    (forall i la, lookup_latom i tbl = Some la -> Forall good2 (la_prefix la) /\ good2 (la_items la)) ->
+    forall f a b, good2 a -> good2 b -> sem_is_subtype_l tbl no_struct f a b = Ok false ->
+    exists v, lval_ok (fun _ => True) v /\ vmem tbl v a = true /\ vmem tbl v b = false.
+Proof. exact list_subtype_complete. Qed.
+
+Corollary C05_list_only_types_assignability_is_inclusion :
+  forall (tbl : ltable),
+    (forall i la, lookup_latom i tbl = Some la -> Forall good2 (la_prefix la) /\ good2 (la_items la)) ->
+    forall f a b d, good2 a -> good2 b -> sem_is_subtype_l tbl no_struct f a b = Ok d ->
+    (d = true <-> forall v, lval_ok (fun _ => True) v -> vmem tbl v a = true -> vmem tbl v b = true).
+Proof.
+  intros tbl Ht f a b d Ga Gb H.
+  assert (Ht1 : forall i la, lookup_latom i tbl = Some la -> Forall (fun t => wf2 t = true) (la_prefix la) /\ wf2 (la_items la) = true).
+  { intros i la Hl. destruct (Ht i la Hl) as [H1 [H2 _]]. split; [|exact H2].
+    apply Forall_forall. intros t Hin. exact (proj1 (proj1 (Forall_forall _ _) H1 t Hin)). }
+  destruct d; split.
+  - intros _. apply (C05_list_only_types_assignable_implies_inclusion tbl Ht1 f a b (proj1 Ga) (proj1 Gb) H).
+  - reflexivity.
+  - discriminate.
+  - intros Hinc. destruct (list_subtype_complete tbl Ht f a b Ga Gb H) as (v & Hv & Ha & Hb). rewrite (Hinc v Hv Ha) in Hb. discriminate.
+Qed.
+
 (* non-vacuity, and the two shapes on which the pinned tree answered wrongly before the repairs 10e351d / 09b6a21:
    L0 = [null, ...(number|string)[]], L1 = [null|number, ...string[]], L2 = [null, number, ...any[]], L3 = string[], L4 = [string] *)
 Definition tNull := mkSem (stag_code TgNull) [].   Definition tNum := mkSem (stag_code TgNumber) [].
@@ -127,3 +153,5 @@ Print Assumptions C05_assignable_implies_inclusion.
 Print Assumptions C05_basic_types_assignability_is_inclusion.
 Print Assumptions C05_list_types_assignable_implies_inclusion.
 Print Assumptions C05_list_only_types_assignable_implies_inclusion.
+Print Assumptions C05_list_only_types_not_assignable_has_a_separating_value.
+Print Assumptions C05_list_only_types_assignability_is_inclusion.
